@@ -900,3 +900,68 @@ c.skip_cross = True
 c.inline = True
 c.mod("self.objid").mod("self.genno")
 c.ens("number-and-generation-recorded-for-the-per-object-key", lambda self, objid, genno: And(eq(self.objid, objid), eq(self.genno, genno)))
+
+
+# -- render_contents (C05, C04, C12): resources, then a fresh state with the given CTM, then the streams - in this order, each exactly once -------------------
+pin = real_module("pdfminer.pdfinterp")
+_ir = stub("pdfminer.pdfinterp:PDFPageInterpreter.init_resources", ["self", "resources"])
+_is = stub("pdfminer.pdfinterp:PDFPageInterpreter.init_state", ["self", "ctm"])
+_ex = stub("pdfminer.pdfinterp:PDFPageInterpreter.execute", ["self", "streams"])
+_lv = stub("pdfminer.pdftypes:list_value", ["x"]); _lv.result_fn = ("the-list-itself", lambda x: x)
+_lv.note = "list_value is the identity on a list (its own contract is in C13)"
+for _variant in ("ctm-given", "ctm-default"):
+    c = contract("pdfminer.pdfinterp:PDFPageInterpreter.render_contents#%s" % _variant, props=["C05", "C04", "C12"])
+    c.param("self", T.Obj("pdfminer.pdfinterp:PDFPageInterpreter")).param("resources", T.Const({"Font": "fonts"})).param("streams", T.Const(["s1", "s2"]))
+    if _variant == "ctm-given":
+        c.param("ctm", T.RealTup(6))
+    c.skip_cross = True
+    c.stubs = {"pdfminer.pdfinterp:PDFPageInterpreter.init_resources": _ir, "pdfminer.pdfinterp:PDFPageInterpreter.init_state": _is,
+               "pdfminer.pdfinterp:PDFPageInterpreter.execute": _ex, "pdfminer.pdftypes:list_value": _lv}
+
+    def _rc_spec(resources, streams, trace, ctm=None):  # noqa: E306
+        t = [(n.split(".")[-1].split(":")[-1], b) for n, b in trace if not n.endswith("list_value")]
+        if [n for n, _ in t] != ["init_resources", "init_state", "execute"]:
+            return False
+        if t[0][1]["resources"] is not resources and t[0][1]["resources"] != resources:
+            return False
+        if list(t[2][1]["streams"]) != list(streams):
+            return False
+        got = t[1][1]["ctm"]
+        if ctm is None:
+            return tuple(got) == (1, 0, 0, 1, 0, 0)
+        return And(*[eq(got[k], ctm[k]) for k in range(6)])
+    if _variant == "ctm-given":
+        c.ens("resources-then-fresh-state-with-this-ctm-then-all-streams-in-order", lambda resources, streams, trace, ctm: _rc_spec(resources, streams, trace, ctm))
+    else:
+        c.ens("resources-then-fresh-state-with-the-identity-ctm-then-all-streams-in-order", lambda resources, streams, trace: _rc_spec(resources, streams, trace))
+
+
+# -- PDFPage._parse_contents (C04): absent -> no streams; a single stream -> a list of that stream; an array -> its elements in order -------------------------
+_r1 = stub("pdfminer.pdftypes:resolve1", ["x"]); _r1.result_fn = ("resolved", lambda x: x.f["_target"] if isinstance(x, SObj) and "_target" in x.f else x)
+_r1.note = "resolve1 follows a reference to its target and is the identity otherwise (its own contract is in C13)"
+
+
+class _Contents(T.Sort):
+    KINDS = ["absent", "one-stream", "array", "empty-array", "ref-to-array", "ref-to-stream"]
+    def fresh(self, ctx, name):
+        k = ctx.choose(self.KINDS, "contents")
+        s1, s2 = SObj(pt.PDFStream, {"_tag": "s1"}, "s1"), SObj(pt.PDFStream, {"_tag": "s2"}, "s2")
+        v, want = {"absent": (None, []), "one-stream": (s1, [s1]), "array": ([s1, s2], [s1, s2]), "empty-array": ([], []),
+                   "ref-to-array": (SObj(pt.PDFObjRef, {"_target": [s2, s1]}, "ref"), [s2, s1]), "ref-to-stream": (SObj(pt.PDFObjRef, {"_target": s2}, "ref"), [s2])}[k]
+        return SObj(None, {"v": v, "_want": want, "_kind": k}, name)
+    def sample(self, rng):
+        return None
+    def from_model(self, ev, v):
+        return v.f["_kind"]
+
+
+sc = scenario("pdfminer.pdfpage", "page-contents-as-a-list-of-streams", """
+def contents_of(c):
+    return PDFPage._parse_contents(None, c.v)
+""", props=["C04", "C05"])
+sc.param("c", _Contents())
+sc.skip_cross = True
+sc.stubs = {"pdfminer.pdftypes:resolve1": _r1}
+sc.returns(T.Opaque("list"))
+sc.ens("absent-none-single-one-array-its-elements-in-order", lambda c, result: (
+    isinstance(result, list) and len(result) == len(c._want) and all(getattr(a, "f", {}).get("_tag") == b.f["_tag"] for a, b in zip(result, c._want))))
